@@ -13,7 +13,7 @@
      7. reachable states, bounds *)
 From Coq Require Import ZArith List Bool Lia Permutation Sorting.Sorted.
 From EC Require Import Lib.Outcome Lib.U64 Lib.ListW Lib.Obs Model.Msgs Model.Replica Model.ReplicaRun
-  Proofs.MsgsFacts Proofs.QCProofs.
+  Proofs.MsgsFacts Proofs.QCProofs Proofs.TqcAssembly.
 Import ListNotations.
 Open Scope Z_scope.
 
@@ -233,12 +233,6 @@ Proof.
 Qed.
 
 (* cindex is injective on its results and bounded *)
-Lemma cindex_lt C k i : cindex C k = Some i -> (i < length C)%nat.
-Proof.
-  intros H. apply cindex_spec in H. destruct H as (m & Hm & _).
-  apply nth_error_Some. congruence.
-Qed.
-
 Lemma cindex_inj C k k' i : cindex C k = Some i -> cindex C k' = Some i -> k = k'.
 Proof.
   intros H H'. apply cindex_spec in H, H'. destruct H as (m & Hm & <-). destruct H' as (m' & Hm' & <-).
@@ -499,16 +493,21 @@ Lemma zmap_set_has {A} (m : list (Z * A)) k a : In (k, a) (zmap_set m k a).
 Proof. apply zmap_get_in. rewrite zmap_get_set, Z.eqb_refl. reflexivity. Qed.
 
 (* ----- commit caches ----- *)
-Definition bucket_ok (C : committee) (views : list (Z * Z)) (e : Z * list (commit * cqc)) : Prop :=
-  (forall c q, In (c, q) (snd e) -> qmsg q = c) /\ fam_ok C views (fst e) (cbms (snd e)).
+(* per certificate under construction: stored under its own vote, assembled correctly so far
+   (QCProofs.cqc_inv: |C|-bit bitmap, aggregate = the listed members' signatures over the vote),
+   the vote is for this chain and epoch and for the view of the bucket *)
+Definition bucket_ok (g ep : Z) (C : committee) (views : list (Z * Z)) (e : Z * list (commit * cqc)) : Prop :=
+  (forall c q, In (c, q) (snd e) ->
+     qmsg q = c /\ cqc_inv C q /\ view_ok g ep (cview c) /\ vnum (cview c) = fst e) /\
+  fam_ok C views (fst e) (cbms (snd e)).
 
-Definition cinv (C : committee) (views : list (Z * Z)) (qcs : list (Z * list (commit * cqc))) : Prop :=
-  views_ok C views /\ zsorted qcs /\ covered views qcs /\ forall e, In e qcs -> bucket_ok C views e.
+Definition cinv (g ep : Z) (C : committee) (views : list (Z * Z)) (qcs : list (Z * list (commit * cqc))) : Prop :=
+  views_ok C views /\ zsorted qcs /\ covered views qcs /\ forall e, In e qcs -> bucket_ok g ep C views e.
 
 Definition bucket_of (qcs : list (Z * list (commit * cqc))) (v : Z) :=
   match zmap_get qcs v with Some b => b | None => [] end.
 
-Lemma bucket_of_ok C views qcs v : cinv C views qcs -> bucket_ok C views (v, bucket_of qcs v).
+Lemma bucket_of_ok g ep C views qcs v : cinv g ep C views qcs -> bucket_ok g ep C views (v, bucket_of qcs v).
 Proof.
   intros (_ & _ & _ & H). unfold bucket_of. destruct (zmap_get qcs v) as [b|] eqn:E.
   - apply zmap_get_in in E. exact (H _ E).
@@ -518,43 +517,54 @@ Qed.
 Definition q0_of (C : committee) (bucket : list (commit * cqc)) (c : commit) : cqc :=
   match cmap_get bucket c with Some q => q | None => cqc_new c C end.
 
-Lemma q0_facts C views v bucket c key i0 : bucket_ok C views (v, bucket) ->
+(* the certificate a fresh vote of [key] is added to: found under the vote, or new *)
+Lemma entry_facts g ep C views v bucket c key i0 : bucket_ok g ep C views (v, bucket) ->
   cindex C key = Some i0 -> fresh views key v ->
-  qmsg (q0_of C bucket c) = c /\ length (qsigners (q0_of C bucket c)) = length C /\
-  nth_error (qsigners (q0_of C bucket c)) i0 = Some false.
+  forall q0, q0 = cqc_new c C \/ In (c, q0) bucket ->
+  qmsg q0 = c /\ cqc_inv C q0 /\ nth_error (qsigners q0) i0 = Some false.
 Proof.
-  intros [Hm Hf] Hk Hfr. cbn [fst snd] in *. unfold q0_of.
+  intros [Hm Hf] Hk Hfr q0 Hq0. cbn [fst snd] in *.
   pose proof (cindex_lt _ _ _ Hk) as Hlt.
-  destruct (cmap_get bucket c) as [q|] eqn:E.
-  - apply cmap_get_in in E. pose proof (Hm c q E) as Hq.
-    assert (Hin : In (qsigners q) (cbms bucket)).
-    { unfold cbms. apply in_map_iff. exists (c, q). split; [reflexivity|exact E]. }
-    destruct Hf as (H1 & H2 & H3). rewrite Forall_forall in H1. destruct (H1 _ Hin) as [Hlen _].
-    repeat split; [exact Hq|exact Hlen|].
-    rewrite nth_error_bit by lia. f_equal.
-    eapply fresh_bit_false; try eassumption. repeat split; [apply Forall_forall|..]; eassumption.
-  - unfold cqc_new; cbn [qmsg qsigners]. rewrite bv_new_length. repeat split.
-    rewrite nth_error_bit by (rewrite bv_new_length; lia). rewrite bit_bv_new. reflexivity.
+  destruct Hq0 as [->|Hin].
+  - split; [reflexivity|]. split; [apply cqc_new_inv|].
+    unfold cqc_new; cbn [qsigners]. apply nth_error_bv_new. exact Hlt.
+  - destruct (Hm c q0 Hin) as (Hq & Hi & _). split; [exact Hq|]. split; [exact Hi|].
+    destruct Hi as [Hlen _]. rewrite nth_error_bit by lia. f_equal.
+    eapply fresh_bit_false; try eassumption.
+    unfold cbms. apply in_map_iff. exists (c, q0). split; [reflexivity|exact Hin].
 Qed.
 
-Lemma cinv_step C views qcs key v i0 c upd :
-  cinv C views qcs -> cindex C key = Some i0 -> fresh views key v ->
+Lemma q0_facts g ep C views v bucket c key i0 : bucket_ok g ep C views (v, bucket) ->
+  cindex C key = Some i0 -> fresh views key v ->
+  qmsg (q0_of C bucket c) = c /\ cqc_inv C (q0_of C bucket c) /\
+  nth_error (qsigners (q0_of C bucket c)) i0 = Some false.
+Proof.
+  intros Hb Hk Hfr. eapply entry_facts; try eassumption. unfold q0_of.
+  destruct (cmap_get bucket c) as [q|] eqn:E; [right; apply cmap_get_in; exact E|left; reflexivity].
+Qed.
+
+Lemma cinv_step g ep C views qcs key v i0 c upd :
+  cinv g ep C views qcs -> cindex C key = Some i0 -> fresh views key v ->
+  view_ok g ep (cview c) -> vnum (cview c) = v ->
   (forall q, qsigners (upd q) = bv_set (qsigners q) i0) -> (forall q, qmsg (upd q) = qmsg q) ->
+  (forall q, qmsg q = c -> cqc_inv C q -> nth_error (qsigners q) i0 = Some false -> cqc_inv C (upd q)) ->
   let views' := zmap_set views key v in
   let qcs' := retain_views (zmap_set qcs v (cupsert (bucket_of qcs v) c upd (cqc_new c C))) views' in
-  cinv C views' qcs' /\ cinv C views' (zmap_remove qcs' v).
+  cinv g ep C views' qcs' /\ cinv g ep C views' (zmap_remove qcs' v).
 Proof.
-  intros Hinv Hk Hfr Hu1 Hu2 views' qcs'.
-  pose proof (bucket_of_ok C views qcs v Hinv) as Hb.
+  intros Hinv Hk Hfr Hvw Hvn Hu1 Hu2 Hu3 views' qcs'.
+  pose proof (bucket_of_ok g ep C views qcs v Hinv) as Hb.
+  pose proof (entry_facts g ep C views v _ c key i0 Hb Hk Hfr) as Hent.
   destruct Hinv as (Hv & Hs & Hcov & Hall).
   set (b' := cupsert (bucket_of qcs v) c upd (cqc_new c C)) in *.
   assert (Hv' : views_ok C views') by (eapply views_ok_set; eassumption).
-  assert (Hfull : forall e, In e (zmap_set qcs v b') -> bucket_ok C views' e).
+  assert (Hfull : forall e, In e (zmap_set qcs v b') -> bucket_ok g ep C views' e).
   { intros e He. apply zmap_set_in in He. destruct He as [->|He].
     - destruct Hb as [Hm Hf]. cbn [fst snd] in *. split; cbn [fst snd].
       + intros c1 q1 Hin. apply cupsert_in in Hin. destruct Hin as [Hin|(q0 & Hq0 & Heq)].
         * exact (Hm _ _ Hin).
-        * inversion Heq; subst. rewrite Hu2. destruct Hq0 as [->|Hq0]; [reflexivity|exact (Hm _ _ Hq0)].
+        * inversion Heq; subst c1 q1. destruct (Hent q0 Hq0) as (Hq0m & Hq0i & Hq0n).
+          split; [rewrite Hu2; exact Hq0m|]. split; [apply Hu3; assumption|]. split; assumption.
       + eapply fam_ok_upsert; try eassumption.
         * intros i Hi. apply cupsert_col_other with (i0 := i0) (n := length C); [exact Hu1|reflexivity|exact Hi].
         * apply cupsert_col_same; try exact Hu1.
@@ -579,8 +589,11 @@ Proof.
 Qed.
 
 (* ----- timeout caches ----- *)
+(* the TimeoutQC under construction for view v: carries the view (genesis, epoch, v), assembled
+   correctly so far (TqcAssembly.tqc_inv) *)
 Definition tentry_ok (g ep : Z) (C : committee) (views : list (Z * Z)) (x : Z * tqc) : Prop :=
   tqview (snd x) = {| vgen := g; vepoch := ep; vnum := fst x |} /\
+  tqc_inv g ep C (snd x) /\
   fam_ok C views (fst x) (map snd (tqmap (snd x))).
 
 Definition tinv (g ep : Z) (C : committee) (views : list (Z * Z)) (tqcs : list (Z * tqc)) : Prop :=
@@ -594,7 +607,10 @@ Lemma t0_ok g ep C views tqcs vw : tinv g ep C views tqcs -> vgen vw = g -> vepo
 Proof.
   intros (_ & _ & _ & H) Hg He. unfold t0_of. destruct (zmap_get tqcs (vnum vw)) as [q|] eqn:E.
   - apply zmap_get_in in E. exact (H _ E).
-  - split; cbn [fst snd tqc_new tqview tqmap map]; [destruct vw; cbn in *; subst; reflexivity|apply fam_ok_nil].
+  - split; [|split]; cbn [fst snd tqc_new tqview tqmap map].
+    + destruct vw; cbn in *; subst; reflexivity.
+    + apply tqc_new_inv.
+    + apply fam_ok_nil.
 Qed.
 
 Lemma tinv_step g ep C views tqcs key i0 vw m agg :
@@ -603,17 +619,18 @@ Lemma tinv_step g ep C views tqcs key i0 vw m agg :
   let v := vnum vw in
   let t0 := t0_of tqcs vw in
   let t' := {| tqview := tqview t0; tqmap := tqmap_set (tqmap t0) m (length C) i0; tqagg := agg |} in
+  tqc_inv g ep C t' ->
   let views' := zmap_set views key v in
   let tqcs' := retain_views (zmap_set tqcs v t') views' in
   tinv g ep C views' tqcs' /\ tinv g ep C views' (zmap_remove tqcs' v).
 Proof.
-  intros Hinv Hk Hfr Hg He v t0 t' views' tqcs'.
-  pose proof (t0_ok g ep C views tqcs vw Hinv Hg He) as [Hvw Hf]. cbn [fst snd] in Hvw, Hf. fold t0 in Hvw, Hf.
+  intros Hinv Hk Hfr Hg He v t0 t' Hti' views' tqcs'.
+  pose proof (t0_ok g ep C views tqcs vw Hinv Hg He) as (Hvw & _ & Hf). cbn [fst snd] in Hvw, Hf. fold t0 in Hvw, Hf.
   destruct Hinv as (Hv & Hs & Hcov & Hall).
   assert (Hv' : views_ok C views') by (eapply views_ok_set; eassumption).
   assert (Hfull : forall e, In e (zmap_set tqcs v t') -> tentry_ok g ep C views' e).
   { intros e Hin. apply zmap_set_in in Hin. destruct Hin as [->|Hin].
-    - split; cbn [fst snd t' tqview tqmap]; [exact Hvw|].
+    - split; [|split]; cbn [fst snd]; [exact Hvw|exact Hti'|]. cbn [t' tqmap].
       eapply fam_ok_upsert; try eassumption.
       + intros i Hi. apply tqmap_set_col_other; exact Hi.
       + apply tqmap_set_col_same. eapply fresh_bit_false; eassumption.
@@ -621,7 +638,7 @@ Proof.
         apply tqmap_set_in in Hin. destruct Hin as [Hin|(s0 & Hs0 & Heq)].
         * left. apply in_map; exact Hin.
         * right. exists s0. split; assumption.
-    - destruct (Hall e Hin) as [Hm Hf']. split; [exact Hm|].
+    - destruct (Hall e Hin) as (Hm & Hi & Hf'). split; [exact Hm|]. split; [exact Hi|].
       eapply fam_ok_mono; [apply views_le_set; exact Hfr|exact Hf']. }
   assert (Hs' : zsorted tqcs') by (apply zsorted_filter, zmap_set_sorted; exact Hs).
   assert (Hc' : covered views' tqcs') by apply retain_covered.
@@ -850,7 +867,7 @@ Qed.
 
 Definition cache_inv_c (cfg : config) (cs : caches_t) : Prop :=
   let '(cv, cq, tv, tq) := cs in
-  cinv (cC cfg) cv cq /\ tinv (cg cfg) (ce cfg) (cC cfg) tv tq.
+  cinv (cg cfg) (ce cfg) (cC cfg) cv cq /\ tinv (cg cfg) (ce cfg) (cC cfg) tv tq.
 Definition cache_inv (cfg : config) (s : rstate) : Prop := cache_inv_c cfg (caches s).
 
 Lemma keeps_inv {A} cfg base (x : hres A) : cache_inv_c cfg base -> keeps base x -> cache_inv cfg (st_of x).
@@ -863,95 +880,234 @@ Definition cupd (key : Z) (c : commit) (i0 : nat) (q : cqc) : cqc :=
 Ltac leaf Hinv :=
   split; [exact Hinv|unfold np, res_of, hfail, hret, hpanic; cbn [snd]; intros ? ?; discriminate].
 
-Theorem on_commit_spec cfg s key g c : cache_inv cfg s ->
-  cache_inv cfg (st_of (on_commit cfg s key g c)) /\ np (on_commit cfg s key g c).
+(* the handler's own CommitQC::add, on any certificate for this vote that [key] is not in yet *)
+Lemma cupd_add cfg key c i0 q : cindex (cC cfg) key = Some i0 ->
+  commit_verify (cg cfg) (ce cfg) c = Ok tt ->
+  qmsg q = c -> cqc_inv (cC cfg) q -> nth_error (qsigners q) i0 = Some false ->
+  cqc_add (cg cfg) (ce cfg) (cC cfg) q {| skey := key; smsg := c; ssig := (key, RCommit c) |}
+  = Ok (cupd key c i0 q).
 Proof.
-  intros Hinv. pose proof Hinv as [Hc Ht].
-  unfold on_commit, ccontains. cbv zeta.
-  destruct (cindex (cC cfg) key) as [i0|] eqn:Hk; cbn [negb]; [|leaf Hinv].
-  destruct (vnum (cview c) <? r_view s); [leaf Hinv|].
-  destruct (match zmap_get (r_commit_views s) key with Some v' => vnum (cview c) <=? v' | None => false end) eqn:Efresh;
-    [leaf Hinv|].
-  destruct g; cbn [negb]; [|leaf Hinv].
-  destruct (commit_verify (cg cfg) (ce cfg) c) as [[]|e|p] eqn:Ev; [|leaf Hinv|].
-  2:{ exfalso. unfold commit_verify, view_verify in Ev.
-      destruct (negb _); [discriminate|]. destruct (negb _); discriminate. }
+  intros Hk Ev Hm [Hl _] Hn. apply (cqc_add_ok_iff _ _ _ _ _ _ Hl). exists i0. cbn [skey smsg ssig].
+  split; [exact Hk|]. split; [exact Hn|]. split; [reflexivity|]. split; [exact Hm|].
+  split; [apply view_verify_iff; exact Ev|reflexivity].
+Qed.
+
+Lemma cupd_inv cfg key c i0 q : cindex (cC cfg) key = Some i0 ->
+  commit_verify (cg cfg) (ce cfg) c = Ok tt ->
+  qmsg q = c -> cqc_inv (cC cfg) q -> nth_error (qsigners q) i0 = Some false ->
+  cqc_inv (cC cfg) (cupd key c i0 q).
+Proof.
+  intros Hk Ev Hm Hi Hn.
+  exact (proj1 (cqc_add_inv _ _ _ _ _ _ Hi (cupd_add cfg key c i0 q Hk Ev Hm Hi Hn))).
+Qed.
+
+(* what on_commit does once its own checks have passed *)
+Definition on_commit_accept (cfg : config) (s : rstate) (key : Z) (c : commit) (i0 : nat) : hres unit :=
+  let v := vnum (cview c) in
+  let bucket := bucket_of (r_commit_qcs s) v in
+  let q := cupd key c i0 (q0_of (cC cfg) bucket c) in
+  let views' := zmap_set (r_commit_views s) key v in
+  let qcs' := retain_views (zmap_set (r_commit_qcs s) v (cmap_set bucket c q)) views' in
+  if weight (cweights (cC cfg)) (qsigners q) <? quorum (cC cfg)
+  then hret (set_commit_caches s views' qcs') tt
+  else hbind (process_commit_qc cfg (set_commit_caches s views' (zmap_remove qcs' v)) q) (fun s _ =>
+       hbind (lift s (num_next (cchk cfg) v)) (fun s nv => start_new_view cfg s nv)).
+
+Theorem on_commit_eq cfg s key c i0 : cache_inv cfg s ->
+  cindex (cC cfg) key = Some i0 -> (vnum (cview c) <? r_view s) = false ->
+  fresh (r_commit_views s) key (vnum (cview c)) -> commit_verify (cg cfg) (ce cfg) c = Ok tt ->
+  on_commit cfg s key true c = on_commit_accept cfg s key c i0.
+Proof.
+  intros [Hc Ht] Hk Hold Efresh Ev.
+  unfold on_commit, on_commit_accept, ccontains. cbv zeta. rewrite Hk. cbn [negb]. rewrite Hold.
+  unfold fresh in Efresh. rewrite Efresh. rewrite Ev.
   change (match zmap_get (r_commit_qcs s) (vnum (cview c)) with Some b => b | None => [] end)
     with (bucket_of (r_commit_qcs s) (vnum (cview c))).
   set (v := vnum (cview c)) in *. set (bucket := bucket_of (r_commit_qcs s) v).
   change (match cmap_get bucket c with Some q => q | None => cqc_new c (cC cfg) end)
     with (q0_of (cC cfg) bucket c).
-  pose proof (q0_facts (cC cfg) (r_commit_views s) v bucket c key i0
-                (bucket_of_ok _ _ _ v Hc) Hk Efresh) as (Hq0m & Hq0l & Hq0n).
-  assert (Hadd : cqc_add (cg cfg) (ce cfg) (cC cfg) (q0_of (cC cfg) bucket c)
-                   {| skey := key; smsg := c; ssig := (key, RCommit c) |}
-                 = Ok (cupd key c i0 (q0_of (cC cfg) bucket c))).
-  { apply (cqc_add_ok_iff _ _ _ _ _ _ Hq0l). exists i0. cbn [skey smsg ssig].
-    split; [exact Hk|]. split; [exact Hq0n|]. split; [reflexivity|]. split; [exact Hq0m|].
-    split; [apply view_verify_iff; exact Ev|reflexivity]. }
-  rewrite Hadd. cbv beta iota.
-  unfold signers_weight. cbn [cupd qsigners]. rewrite bv_set_length, Hq0l, Nat.eqb_refl.
-  destruct (cinv_step (cC cfg) (r_commit_views s) (r_commit_qcs s) key v i0 c (cupd key c i0)
-              Hc Hk Efresh (fun _ => eq_refl) (fun _ => eq_refl)) as [Hi1 Hi2].
+  pose proof (q0_facts _ _ (cC cfg) (r_commit_views s) v bucket c key i0
+                (bucket_of_ok _ _ _ _ _ v Hc) Hk Efresh) as (Hq0m & Hq0i & Hq0n).
+  rewrite (cupd_add cfg key c i0 _ Hk Ev Hq0m Hq0i Hq0n). cbv beta iota.
+  unfold signers_weight. cbn [cupd qsigners]. rewrite bv_set_length, (proj1 Hq0i), Nat.eqb_refl.
+  destruct (_ <? quorum (cC cfg)); [reflexivity|].
+  rewrite (retain_get _ _ key v (zmap_set_has _ _ _)), zmap_get_set, Z.eqb_refl, cmap_get_set.
+  reflexivity.
+Qed.
+
+Lemma on_commit_accept_spec cfg s key c i0 : cache_inv cfg s ->
+  cindex (cC cfg) key = Some i0 ->
+  fresh (r_commit_views s) key (vnum (cview c)) -> commit_verify (cg cfg) (ce cfg) c = Ok tt ->
+  cache_inv cfg (st_of (on_commit_accept cfg s key c i0)) /\ np (on_commit_accept cfg s key c i0).
+Proof.
+  intros [Hc Ht] Hk Efresh Ev. unfold on_commit_accept. cbv zeta.
+  set (v := vnum (cview c)) in *. set (bucket := bucket_of (r_commit_qcs s) v).
+  destruct (cinv_step (cg cfg) (ce cfg) (cC cfg) (r_commit_views s) (r_commit_qcs s) key v i0 c (cupd key c i0)
+              Hc Hk Efresh (proj1 (view_verify_iff _ _ _) Ev) eq_refl (fun _ => eq_refl) (fun _ => eq_refl)
+              (fun q Hm Hi Hn => cupd_inv cfg key c i0 q Hk Ev Hm Hi Hn)) as [Hi1 Hi2].
   cbv zeta in Hi1, Hi2. fold bucket in Hi1, Hi2.
   destruct (_ <? quorum (cC cfg)).
   - split; [|intros p Hp; discriminate Hp]. split; [exact Hi1|exact Ht].
-  - rewrite (retain_get _ _ key v (zmap_set_has _ _ _)), zmap_get_set, Z.eqb_refl, cmap_get_set.
-    split.
+  - split.
     + eapply keeps_inv; [|apply tail_keeps; apply process_commit_qc_keeps; reflexivity].
       split; [exact Hi2|exact Ht].
     + apply tail_np; [apply process_commit_qc_res|]. intros a _. left. apply process_commit_qc_res.
 Qed.
 
-Theorem on_timeout_spec cfg s key g t : cache_inv cfg s ->
-  cache_inv cfg (st_of (on_timeout cfg s key g t)) /\ np (on_timeout cfg s key g t).
+Theorem on_commit_spec cfg s key g c : cache_inv cfg s ->
+  cache_inv cfg (st_of (on_commit cfg s key g c)) /\ np (on_commit cfg s key g c).
 Proof.
-  intros Hinv. pose proof Hinv as [Hc Ht].
-  unfold on_timeout, ccontains. cbv zeta.
-  destruct (cindex (cC cfg) key) as [i0|] eqn:Hk; cbn [negb]; [|leaf Hinv].
-  destruct (vnum (tview t) <? r_view s); [leaf Hinv|].
-  destruct (match zmap_get (r_timeout_views s) key with Some v' => vnum (tview t) <=? v' | None => false end) eqn:Efresh;
-    [leaf Hinv|].
-  destruct g; cbn [negb]; [|leaf Hinv].
-  destruct (timeout_verify_total (cg cfg) (ce cfg) (cC cfg) t) as [Ev|[x Ev]]; rewrite Ev; [|leaf Hinv].
+  intros Hinv.
+  destruct (cindex (cC cfg) key) as [i0|] eqn:Hk.
+  2:{ unfold on_commit, ccontains. rewrite Hk. cbn [negb]. leaf Hinv. }
+  destruct (vnum (cview c) <? r_view s) eqn:Hold.
+  { unfold on_commit, ccontains. cbv zeta. rewrite Hk. cbn [negb]. rewrite Hold. leaf Hinv. }
+  destruct (match zmap_get (r_commit_views s) key with Some v' => vnum (cview c) <=? v' | None => false end) eqn:Efresh.
+  { unfold on_commit, ccontains. cbv zeta. rewrite Hk. cbn [negb]. rewrite Hold, Efresh. leaf Hinv. }
+  destruct g.
+  2:{ unfold on_commit, ccontains. cbv zeta. rewrite Hk. cbn [negb]. rewrite Hold, Efresh. leaf Hinv. }
+  destruct (commit_verify (cg cfg) (ce cfg) c) as [[]|e|p] eqn:Ev.
+  - rewrite (on_commit_eq cfg s key c i0 Hinv Hk Hold Efresh Ev).
+    apply on_commit_accept_spec; assumption.
+  - unfold on_commit, ccontains. cbv zeta. rewrite Hk. cbn [negb]. rewrite Hold, Efresh, Ev. leaf Hinv.
+  - exfalso. unfold commit_verify, view_verify in Ev.
+    destruct (negb _); [discriminate|]. destruct (negb _); discriminate.
+Qed.
+
+(* for C05: the certificate handed to process_commit_qc verifies *)
+Theorem on_commit_qc_verifies cfg s key c i0 : cache_inv cfg s ->
+  cindex (cC cfg) key = Some i0 ->
+  fresh (r_commit_views s) key (vnum (cview c)) -> commit_verify (cg cfg) (ce cfg) c = Ok tt ->
+  let q := cupd key c i0 (q0_of (cC cfg) (bucket_of (r_commit_qcs s) (vnum (cview c))) c) in
+  quorum (cC cfg) <= weight (cweights (cC cfg)) (qsigners q) ->
+  qmsg q = c /\ cqc_inv (cC cfg) q /\ cqc_verify (cg cfg) (ce cfg) (cC cfg) q = Ok tt.
+Proof.
+  intros [Hc Ht] Hk Efresh Ev q Hw.
+  pose proof (q0_facts _ _ (cC cfg) (r_commit_views s) _ _ c key i0
+                (bucket_of_ok _ _ _ _ _ (vnum (cview c)) Hc) Hk Efresh) as (Hq0m & Hq0i & Hq0n).
+  pose proof (cupd_inv cfg key c i0 _ Hk Ev Hq0m Hq0i Hq0n) as Hqi. fold q in Hqi.
+  assert (Hqm : qmsg q = c) by exact Hq0m.
+  split; [exact Hqm|]. split; [exact Hqi|].
+  apply cqc_verify_iff. rewrite Hqm. destruct Hqi as [Hl Hp].
+  split; [apply view_verify_iff; exact Ev|]. split; [exact Hl|]. split; [exact Hw|exact Hp].
+Qed.
+
+(* the handler's own TimeoutQC::add *)
+Definition tupd (cfg : config) (key : Z) (t : timeout) (i0 : nat) (t0 : tqc) : tqc :=
+  {| tqview := tqview t0; tqmap := tqmap_set (tqmap t0) t (length (cC cfg)) i0;
+     tqagg := tqagg t0 ++ [(key, TTimeout t)] |}.
+
+Lemma tupd_add cfg s key t i0 : cache_inv cfg s ->
+  cindex (cC cfg) key = Some i0 -> fresh (r_timeout_views s) key (vnum (tview t)) ->
+  timeout_verify (cg cfg) (ce cfg) (cC cfg) t = Ok tt ->
+  let t0 := t0_of (r_timeout_qcs s) (tview t) in
+  tqc_add (cg cfg) (ce cfg) (cC cfg) t0 {| skey := key; smsg := t; ssig := (key, TTimeout t) |}
+  = Ok (tupd cfg key t i0 t0) /\ tqc_inv (cg cfg) (ce cfg) (cC cfg) (tupd cfg key t i0 t0).
+Proof.
+  intros [_ Ht] Hk Efresh Ev t0.
   pose proof (proj1 (timeout_verify_iff _ _ _ _) Ev) as ([Hg He] & _).
+  pose proof (t0_ok _ _ _ _ _ (tview t) Ht Hg He) as (Hvw & Hti & Hf). cbn [fst snd] in Hvw, Hti, Hf.
+  fold t0 in Hvw, Hti, Hf.
+  pose proof (cindex_lt _ _ _ Hk) as Hlt.
+  pose proof (tqc_inv_lengths _ _ _ _ Hti) as Hlen.
+  assert (Hadd : tqc_add (cg cfg) (ce cfg) (cC cfg) t0 {| skey := key; smsg := t; ssig := (key, TTimeout t) |}
+                 = Ok (tupd cfg key t i0 t0)).
+  { apply (tqc_add_ok_iff _ _ _ _ _ _ Hlen). exists i0. cbn [skey smsg ssig].
+    split; [exact Hk|]. split.
+    { apply Forall_forall. intros en Hen. rewrite Forall_forall in Hlen.
+      rewrite nth_error_bit by (rewrite (Hlen en Hen); exact Hlt). f_equal.
+      eapply fresh_bit_false; try eassumption. apply in_map; exact Hen. }
+    split; [reflexivity|]. split.
+    { rewrite Hvw. destruct (tview t); cbn in *; subst; reflexivity. }
+    split; [exact Ev|reflexivity]. }
+  split; [exact Hadd|]. exact (proj1 (tqc_add_inv _ _ _ _ _ _ Hti Hadd)).
+Qed.
+
+(* what on_timeout does once its own checks have passed *)
+Definition on_timeout_accept (cfg : config) (s : rstate) (key : Z) (t : timeout) (i0 : nat) : hres unit :=
+  let v := vnum (tview t) in
+  let t' := tupd cfg key t i0 (t0_of (r_timeout_qcs s) (tview t)) in
+  let views' := zmap_set (r_timeout_views s) key v in
+  let qcs' := retain_views (zmap_set (r_timeout_qcs s) v t') views' in
+  if weight (cweights (cC cfg)) (union_from (bv_new (length (cC cfg))) (tqmap t')) <? quorum (cC cfg)
+  then hret (set_timeout_caches s views' qcs') tt
+  else hbind (process_timeout_qc cfg (set_timeout_caches s views' (zmap_remove qcs' v)) t') (fun s _ =>
+       hbind (lift s (num_next (cchk cfg) v)) (fun s nv => start_new_view cfg s nv)).
+
+Theorem on_timeout_eq cfg s key t i0 : cache_inv cfg s ->
+  cindex (cC cfg) key = Some i0 -> (vnum (tview t) <? r_view s) = false ->
+  fresh (r_timeout_views s) key (vnum (tview t)) ->
+  timeout_verify (cg cfg) (ce cfg) (cC cfg) t = Ok tt ->
+  on_timeout cfg s key true t = on_timeout_accept cfg s key t i0.
+Proof.
+  intros Hinv Hk Hold Efresh Ev.
+  destruct (tupd_add cfg s key t i0 Hinv Hk Efresh Ev) as [Hadd Hti]. cbv zeta in Hadd, Hti.
+  unfold on_timeout, on_timeout_accept, ccontains. cbv zeta. rewrite Hk. cbn [negb]. rewrite Hold.
+  pose proof Efresh as Efresh'. unfold fresh in Efresh'. rewrite Efresh'. rewrite Ev.
   change (match zmap_get (r_timeout_qcs s) (vnum (tview t)) with Some q => q | None => tqc_new (tview t) end)
     with (t0_of (r_timeout_qcs s) (tview t)).
-  set (t0 := t0_of (r_timeout_qcs s) (tview t)).
-  pose proof (t0_ok _ _ _ _ _ (tview t) Ht Hg He) as [Hvw Hf]. cbn [fst snd] in Hvw, Hf. fold t0 in Hvw, Hf.
-  pose proof (cindex_lt _ _ _ Hk) as Hlt.
-  assert (Hlen0 : forall s0, In s0 (map snd (tqmap t0)) -> length s0 = length (cC cfg)).
-  { intros s0 Hs0. destruct Hf as (H1 & _). rewrite Forall_forall in H1. apply (H1 s0 Hs0). }
-  set (t' := {| tqview := tqview t0; tqmap := tqmap_set (tqmap t0) t (length (cC cfg)) i0;
-                tqagg := tqagg t0 ++ [(key, TTimeout t)] |}).
-  assert (Hadd : tqc_add (cg cfg) (ce cfg) (cC cfg) t0
-                   {| skey := key; smsg := t; ssig := (key, TTimeout t) |} = Ok t').
-  { unfold tqc_add; cbn [skey smsg ssig]. rewrite Hk. rewrite any_signed_false.
-    2:{ intros s0 Hs0. rewrite nth_error_bit by (rewrite (Hlen0 s0 Hs0); exact Hlt). f_equal.
-        eapply fresh_bit_false; eassumption. }
-    cbn [bind]. rewrite (decides_refl _ (ksig_eqb_spec _ tsigref_eqb_spec)). cbn [negb].
-    replace (view_eqb (tview t) (tqview t0)) with true.
-    2:{ symmetry. apply view_eqb_spec. rewrite Hvw. destruct (tview t); cbn in *; subst; reflexivity. }
-    cbn [negb]. rewrite Ev. cbn [map_err bind]. reflexivity. }
   rewrite Hadd. cbv beta iota.
-  unfold tqc_weight. cbn [t' tqmap].
-  destruct (tqc_weight_entries_ok (E := rerr) (cC cfg) (tqmap_set (tqmap t0) t (length (cC cfg)) i0)) as [w Hw].
-  { intros s' Hs'. apply in_map_iff in Hs'. destruct Hs' as (en & <- & Hin).
-    apply tqmap_set_in in Hin. destruct Hin as [Hin|(s0 & Hs0 & ->)].
-    - apply Hlen0. apply in_map; exact Hin.
-    - rewrite bv_set_length. destruct Hs0 as [->|Hs0]; [apply bv_new_length|apply Hlen0; exact Hs0]. }
-  rewrite Hw.
+  rewrite (tqc_weight_union rerr _ _ _ _ Hti).
+  destruct (_ <? quorum (cC cfg)); [reflexivity|].
+  rewrite (retain_get _ _ key _ (zmap_set_has _ _ _)), zmap_get_set, Z.eqb_refl. reflexivity.
+Qed.
+
+Lemma on_timeout_accept_spec cfg s key t i0 : cache_inv cfg s ->
+  cindex (cC cfg) key = Some i0 -> fresh (r_timeout_views s) key (vnum (tview t)) ->
+  timeout_verify (cg cfg) (ce cfg) (cC cfg) t = Ok tt ->
+  cache_inv cfg (st_of (on_timeout_accept cfg s key t i0)) /\ np (on_timeout_accept cfg s key t i0).
+Proof.
+  intros Hinv Hk Efresh Ev. pose proof Hinv as [Hc Ht].
+  destruct (tupd_add cfg s key t i0 Hinv Hk Efresh Ev) as [_ Hti]. cbv zeta in Hti.
+  pose proof (proj1 (timeout_verify_iff _ _ _ _) Ev) as ([Hg He] & _).
+  unfold on_timeout_accept. cbv zeta.
   destruct (tinv_step (cg cfg) (ce cfg) (cC cfg) (r_timeout_views s) (r_timeout_qcs s) key i0 (tview t) t
-              (tqagg t0 ++ [(key, TTimeout t)]) Ht Hk Efresh Hg He) as [Hi1 Hi2].
-  cbv zeta in Hi1, Hi2. fold t0 in Hi1, Hi2. fold t' in Hi1, Hi2.
+              (tqagg (t0_of (r_timeout_qcs s) (tview t)) ++ [(key, TTimeout t)]) Ht Hk Efresh Hg He Hti) as [Hi1 Hi2].
+  cbv zeta in Hi1, Hi2.
   destruct (_ <? quorum (cC cfg)).
   - split; [|intros p Hp; discriminate Hp]. split; [exact Hc|exact Hi1].
-  - rewrite (retain_get _ _ key _ (zmap_set_has _ _ _)), zmap_get_set, Z.eqb_refl.
-    split.
+  - split.
     + eapply keeps_inv; [|apply tail_keeps; apply process_timeout_qc_keeps; reflexivity].
       split; [exact Hc|exact Hi2].
     + apply tail_np; [apply process_timeout_qc_res|]. intros a Ha. right.
       exact (proj2 (process_timeout_qc_res _ _ _) a Ha).
+Qed.
+
+Theorem on_timeout_spec cfg s key g t : cache_inv cfg s ->
+  cache_inv cfg (st_of (on_timeout cfg s key g t)) /\ np (on_timeout cfg s key g t).
+Proof.
+  intros Hinv.
+  destruct (cindex (cC cfg) key) as [i0|] eqn:Hk.
+  2:{ unfold on_timeout, ccontains. rewrite Hk. cbn [negb]. leaf Hinv. }
+  destruct (vnum (tview t) <? r_view s) eqn:Hold.
+  { unfold on_timeout, ccontains. cbv zeta. rewrite Hk. cbn [negb]. rewrite Hold. leaf Hinv. }
+  destruct (match zmap_get (r_timeout_views s) key with Some v' => vnum (tview t) <=? v' | None => false end) eqn:Efresh.
+  { unfold on_timeout, ccontains. cbv zeta. rewrite Hk. cbn [negb]. rewrite Hold, Efresh. leaf Hinv. }
+  destruct g.
+  2:{ unfold on_timeout, ccontains. cbv zeta. rewrite Hk. cbn [negb]. rewrite Hold, Efresh. leaf Hinv. }
+  destruct (timeout_verify_total (cg cfg) (ce cfg) (cC cfg) t) as [Ev|[x Ev]].
+  - rewrite (on_timeout_eq cfg s key t i0 Hinv Hk Hold Efresh Ev).
+    apply on_timeout_accept_spec; assumption.
+  - unfold on_timeout, ccontains. cbv zeta. rewrite Hk. cbn [negb]. rewrite Hold, Efresh, Ev. leaf Hinv.
+Qed.
+
+(* for C05: the certificate handed to process_timeout_qc verifies *)
+Theorem on_timeout_qc_verifies cfg s key t i0 : cache_inv cfg s ->
+  cindex (cC cfg) key = Some i0 -> fresh (r_timeout_views s) key (vnum (tview t)) ->
+  timeout_verify (cg cfg) (ce cfg) (cC cfg) t = Ok tt ->
+  let t' := tupd cfg key t i0 (t0_of (r_timeout_qcs s) (tview t)) in
+  quorum (cC cfg) <= weight (cweights (cC cfg)) (union_from (bv_new (length (cC cfg))) (tqmap t')) ->
+  tqc_inv (cg cfg) (ce cfg) (cC cfg) t' /\ tqview t' = tview t /\
+  tqc_verify (cg cfg) (ce cfg) (cC cfg) t' = Ok tt.
+Proof.
+  intros Hinv Hk Efresh Ev t' Hw. pose proof Hinv as [_ Ht].
+  destruct (tupd_add cfg s key t i0 Hinv Hk Efresh Ev) as [_ Hti]. cbv zeta in Hti. fold t' in Hti.
+  pose proof (proj1 (timeout_verify_iff _ _ _ _) Ev) as (Hvok & _). pose proof Hvok as [Hg He].
+  pose proof (t0_ok _ _ _ _ _ (tview t) Ht Hg He) as (Hvw & _ & _). cbn [fst snd] in Hvw.
+  assert (Hview : tqview t' = tview t).
+  { unfold t', tupd; cbn [tqview]. rewrite Hvw. destruct (tview t); cbn in *; subst; reflexivity. }
+  split; [exact Hti|]. split; [exact Hview|].
+  apply (tqc_inv_verify_iff _ _ _ _ Hti). rewrite Hview. split; [exact Hvok|exact Hw].
 Qed.
 
 (* ================================================================== *)
@@ -1070,7 +1226,7 @@ Proof.
     destruct Hb as (_ & _ & Hl). unfold cbms in Hl. rewrite map_length in Hl. exact Hl. }
   assert (Bte : forall v t, In (v, t) (r_timeout_qcs s) ->
             fam_bounded (length (cC cfg)) (map snd (tqmap t)) /\ (length (tqmap t) <= length (cC cfg))%nat).
-  { intros v t Hin. destruct (Hte _ Hin) as [_ Hf]. cbn [fst snd] in Hf.
+  { intros v t Hin. destruct (Hte _ Hin) as (_ & _ & Hf). cbn [fst snd] in Hf.
     pose proof (fam_bounded_of _ _ _ _ Hf) as Hb. split; [exact Hb|].
     destruct Hb as (_ & _ & Hl). rewrite map_length in Hl. exact Hl. }
   repeat (split; [assumption|]).
@@ -1103,11 +1259,9 @@ Theorem commit_add_cannot_fail cfg s key c i0 : cache_inv cfg s ->
   = Ok (cupd key c i0 q0).
 Proof.
   intros [Hc _] Hk Hfr Ev q0.
-  pose proof (q0_facts (cC cfg) (r_commit_views s) _ _ c key i0 (bucket_of_ok _ _ _ (vnum (cview c)) Hc) Hk Hfr)
-    as (Hq0m & Hq0l & Hq0n). fold q0 in Hq0m, Hq0l, Hq0n.
-  apply (cqc_add_ok_iff _ _ _ _ _ _ Hq0l). exists i0. cbn [skey smsg ssig].
-  split; [exact Hk|]. split; [exact Hq0n|]. split; [reflexivity|]. split; [exact Hq0m|].
-  split; [apply view_verify_iff; exact Ev|reflexivity].
+  pose proof (q0_facts _ _ (cC cfg) (r_commit_views s) _ _ c key i0
+                (bucket_of_ok _ _ _ _ _ (vnum (cview c)) Hc) Hk Hfr) as (Hq0m & Hq0i & Hq0n).
+  exact (cupd_add cfg key c i0 _ Hk Ev Hq0m Hq0i Hq0n).
 Qed.
 
 Theorem timeout_add_cannot_fail cfg s key t i0 : cache_inv cfg s ->
@@ -1115,22 +1269,25 @@ Theorem timeout_add_cannot_fail cfg s key t i0 : cache_inv cfg s ->
   timeout_verify (cg cfg) (ce cfg) (cC cfg) t = Ok tt ->
   let t0 := t0_of (r_timeout_qcs s) (tview t) in
   tqc_add (cg cfg) (ce cfg) (cC cfg) t0 {| skey := key; smsg := t; ssig := (key, TTimeout t) |}
-  = Ok {| tqview := tqview t0; tqmap := tqmap_set (tqmap t0) t (length (cC cfg)) i0;
-          tqagg := tqagg t0 ++ [(key, TTimeout t)] |}.
+  = Ok (tupd cfg key t i0 t0).
+Proof. intros Hinv Hk Hfr Ev. exact (proj1 (tupd_add cfg s key t i0 Hinv Hk Hfr Ev)). Qed.
+
+(* for C05: what the invariant says about each certificate under construction *)
+Theorem cache_inv_commit_qc cfg s v b c q : cache_inv cfg s ->
+  zmap_get (r_commit_qcs s) v = Some b -> cmap_get b c = Some q ->
+  cqc_inv (cC cfg) q /\ qmsg q = c /\ view_ok (cg cfg) (ce cfg) (cview c) /\ vnum (cview c) = v.
 Proof.
-  intros [_ Ht] Hk Efresh Ev t0.
-  pose proof (proj1 (timeout_verify_iff _ _ _ _) Ev) as ([Hg He] & _).
-  pose proof (t0_ok _ _ _ _ _ (tview t) Ht Hg He) as [Hvw Hf]. cbn [fst snd] in Hvw, Hf. fold t0 in Hvw, Hf.
-  pose proof (cindex_lt _ _ _ Hk) as Hlt.
-  assert (Hlen0 : forall s0, In s0 (map snd (tqmap t0)) -> length s0 = length (cC cfg)).
-  { intros s0 Hs0. destruct Hf as (H1 & _). rewrite Forall_forall in H1. apply (H1 s0 Hs0). }
-  unfold tqc_add; cbn [skey smsg ssig]. rewrite Hk. rewrite any_signed_false.
-  2:{ intros s0 Hs0. rewrite nth_error_bit by (rewrite (Hlen0 s0 Hs0); exact Hlt). f_equal.
-      eapply fresh_bit_false; eassumption. }
-  cbn [bind]. rewrite (decides_refl _ (ksig_eqb_spec _ tsigref_eqb_spec)). cbn [negb].
-  replace (view_eqb (tview t) (tqview t0)) with true.
-  2:{ symmetry. apply view_eqb_spec. rewrite Hvw. destruct (tview t); cbn in *; subst; reflexivity. }
-  cbn [negb]. rewrite Ev. cbn [map_err bind]. reflexivity.
+  intros [(_ & _ & _ & Hall) _] Hb Hq. apply zmap_get_in in Hb. apply cmap_get_in in Hq.
+  destruct (Hall _ Hb) as [Hm _]. destruct (Hm c q Hq) as (H1 & H2 & H3 & H4). cbn [fst] in H4. tauto.
+Qed.
+
+Theorem cache_inv_timeout_qc cfg s v t : cache_inv cfg s ->
+  zmap_get (r_timeout_qcs s) v = Some t ->
+  tqc_inv (cg cfg) (ce cfg) (cC cfg) t /\ vnum (tqview t) = v /\ view_ok (cg cfg) (ce cfg) (tqview t).
+Proof.
+  intros [_ (_ & _ & _ & Hall)] Hb. apply zmap_get_in in Hb.
+  destruct (Hall _ Hb) as (H1 & H2 & _). cbn [fst snd] in H1, H2.
+  split; [exact H2|]. rewrite H1. cbn. repeat split.
 Qed.
 
 (* the `.unwrap()`s after `retain`: the bucket of the vote's own view survives the retain,
